@@ -69,3 +69,11 @@ Theorem C18_remembered_queue_length_excludes_virtual_keys : forall c dq layer c'
   exists q1 dq1, drain_virtual (cv_queue c) dq = Ok (q1, dq1) /\ cv_prev_qlen c' = N.of_nat (length q1).
 Proof. exact remembered_length_excludes_virtual_keys. Qed.
 Print Assumptions C18_remembered_queue_length_excludes_virtual_keys.
+
+(* virtual-key events - presses and releases alike - are taken out of the chord queue in the tick they arrive, in their order, and
+   nothing else is (a change that lets only the presses through is seeded C18-m10) *)
+Theorem C18_virtual_key_events_leave_the_chord_queue_at_once : forall q dq q1 dq1,
+  drain_virtual q dq = Ok (q1, dq1) ->
+  q1 = filter (fun qd => fst (q_coord qd) =? 0) q /\ dq1 = dq ++ filter (fun qd => negb (fst (q_coord qd) =? 0)) q.
+Proof. exact virtual_key_events_leave_at_once. Qed.
+Print Assumptions C18_virtual_key_events_leave_the_chord_queue_at_once.
